@@ -1,6 +1,6 @@
 """C12 — tracks are independent; TrackSync and PLAY: streams."""
 from ..core import Stream, hx, unhx
-from .. import mml
+from .. import mml, execstream
 
 RULE = ("permute: multi-track programs (1..12 tracks, numbers 0..40, blocks of track-local commands in any order/interleaving, first use after a higher "
         "number) and a re-ordering of the same blocks that keeps each track's own order: every MTrk chunk must be byte-identical; sem: the same "
@@ -105,4 +105,5 @@ def streams(tier, rng, P, only=None, cases=None):
         src = mml.pr(prog)
         return dict(req="run " + hx(src), src=src, show=src, sexp=mml.sexp(prog), key=case.get("key", "") + "-shrunk")
     s2.ast_rebuild = rebuild
-    return [s for s in (s1, s2) if only in (None, s.name)]
+    sx = execstream.exec_stream(tier, rng, P, only, cases)
+    return [s for s in (s1, s2, sx) if only in (None, s.name)]
